@@ -308,7 +308,11 @@ fn backend<B: Backend>(opts: &Opts, rep: &mut Report) {
         let stream = format!("c02.{}.{}", B::NAME, p.name());
         let mut rng = Rng::derive(opts.seed, &stream, 0);
         let kp = KeyPair::<B>::gen_for(p, &mut rng);
-        let other = KeyPair::<B>::gen_for(p, &mut rng);
+        // "another key" must really be another one (v1 draws RSA keys from a small pool)
+        let mut other = KeyPair::<B>::gen_for(p, &mut rng);
+        while other.raw().1 == kp.raw().1 {
+            other = KeyPair::<B>::gen_for(p, &mut rng);
+        }
         let sizes: &[usize] = if opts.thorough() { &[0, 1, 17, 64, 200] } else { &[0, 1, 17, 64] };
         let mut positive = 0;
         for &len in sizes {
